@@ -222,7 +222,7 @@ package engine
 //@   unfold-post cR(c.fset, c.meta, c.dotAssoc, v, c.patchStart, c.patchEnd) == m
 //@   ensures [C03] absent-pointers-stay-absent: kind(v) == 22 && risnil(v) ==> m == boxed(mk("github.com/uber-go/gopatch/internal/engine.ZeroReplacer", rtype(v)))
 //@   ensures [C03,C17] pattern-comments-are-not-generated: !(kind(v) == 22 && risnil(v)) && rtype(v) == gt("CommentGroupPtrType") ==> m == boxed(mk("github.com/uber-go/gopatch/internal/engine.ValueReplacer", rvOf(boxed(as("*go/ast.CommentGroup", 0)))))
-//@   ensures [C03] object-links-are-not-generated: !(kind(v) == 22 && risnil(v)) && rtype(v) == gt("ObjectPtrType") ==> m == boxed(mk("github.com/uber-go/gopatch/internal/engine.ValueReplacer", rvOf(boxed(as("*go/ast.Object", 0)))))
+//@   ensures [C03,C11] object-links-are-not-generated: !(kind(v) == 22 && risnil(v)) && rtype(v) == gt("ObjectPtrType") ==> m == boxed(mk("github.com/uber-go/gopatch/internal/engine.ValueReplacer", rvOf(boxed(as("*go/ast.Object", 0)))))
 //@   ensures [C03] positions-come-from-the-match: rtype(v) == gt("PosType") && kind(v) != 22 ==> m == boxed(mk("github.com/uber-go/gopatch/internal/engine.PosReplacer", c.fset, rvIface(v).val))
 //@   ensures [C03] a-value-of-any-other-type-is-regenerated-structurally-by-its-kind: rtype(v) != gt("IdentPtrType") && rtype(v) != gt("StmtSliceType") && rtype(v) != gt("ExprSliceType") && rtype(v) != gt("FieldPtrSliceType") && rtype(v) != gt("ForStmtPtrType") && rtype(v) != gt("CommentGroupPtrType") && rtype(v) != gt("ObjectPtrType") && rtype(v) != gt("PosType") && rtype(v) != global("github.com/uber-go/gopatch/internal/engine.dotsPtrType") && !(kind(v) == 22 && risnil(v)) ==> m == ret("(*engine.replacerCompiler).compileGeneric", 0)
 //@   ensures [C03] identifiers-may-be-metavariables: !(kind(v) == 22 && risnil(v)) && rtype(v) == gt("IdentPtrType") ==> m == ret("(*engine.replacerCompiler).compileIdent", 0)
@@ -344,6 +344,9 @@ package engine
 //@   requires 0 <= start && start <= len(items) && 0 <= end
 //@   requires typing: forall i int {items[i]} :: 0 <= i && i < len(items) ==> implements(rvIface(items[i]), "go/ast.Node")
 //@   ensures r1 == secRegion(items, r, start, end)
+//@   ensures [C04,C17] a-section-that-opens-the-list-starts-where-the-enclosing-region-starts: start0 == 0 ==> r1.Pos == r0.Pos
+//@   ensures [C04,C17] a-section-that-closes-the-list-ends-where-the-enclosing-region-ends: end0 >= len(items) ==> r1.End == r0.End
+//@   ensures [C04,C17] otherwise-it-reaches-from-the-sibling-before-to-the-sibling-after: (start0 > 0 ==> r1.Pos == nodeEnd(rvIface(items[start0 - 1]))) && (end0 < len(items) ==> r1.End == nodePos(rvIface(items[end0])))
 //@   unfold-post secRegion(items, r, start, end) == r1
 //@   assigns nothing
 
@@ -679,8 +682,8 @@ package engine
 //@   ensures m != nil
 //@   ensures c.dots.arr == old(c.dots.arr) || fresh(c.dots.arr)
 //@   ensures [C04] for-elision-matcher-holds-the-compiled-body: as("*go/ast.ForStmt", rvIface(v).val).Cond.typ == dyn("*github.com/uber-go/gopatch/internal/pgo.Dots") && as("*go/ast.ForStmt", rvIface(v).val).Init == nil && as("*go/ast.ForStmt", rvIface(v).val).Post == nil ==> m == boxed(mk("github.com/uber-go/gopatch/internal/engine.ForDotsMatcher", nodePos(as("*go/ast.ForStmt", rvIface(v).val).Cond), cM(c.fset, c.meta, rvOf(boxed(as("*go/ast.ForStmt", rvIface(v).val).Body)), c.patchStart, c.patchEnd)))
-//@   at call (*engine.matcherCompiler).compileGeneric assert [C02,C04] only-a-bare-elision-header-is-special: arg1 == v && (as("*go/ast.ForStmt", rvIface(v).val).Cond.typ != dyn("*github.com/uber-go/gopatch/internal/pgo.Dots") || as("*go/ast.ForStmt", rvIface(v).val).Init != nil || as("*go/ast.ForStmt", rvIface(v).val).Post != nil)
-//@   at call (*engine.matcherCompiler).compile assert [C02,C04] the-for-elision-needs-a-bare-elision-header: as("*go/ast.ForStmt", rvIface(v).val).Cond.typ == dyn("*github.com/uber-go/gopatch/internal/pgo.Dots") && as("*go/ast.ForStmt", rvIface(v).val).Init == nil && as("*go/ast.ForStmt", rvIface(v).val).Post == nil
+//@   at call (*engine.matcherCompiler).compileGeneric assert [C02,C03,C04] only-a-bare-elision-header-is-special: arg1 == v && (as("*go/ast.ForStmt", rvIface(v).val).Cond.typ != dyn("*github.com/uber-go/gopatch/internal/pgo.Dots") || as("*go/ast.ForStmt", rvIface(v).val).Init != nil || as("*go/ast.ForStmt", rvIface(v).val).Post != nil)
+//@   at call (*engine.matcherCompiler).compile assert [C02,C03,C04] the-for-elision-needs-a-bare-elision-header: as("*go/ast.ForStmt", rvIface(v).val).Cond.typ == dyn("*github.com/uber-go/gopatch/internal/pgo.Dots") && as("*go/ast.ForStmt", rvIface(v).val).Init == nil && as("*go/ast.ForStmt", rvIface(v).val).Post == nil
 //@   at call (*engine.matcherCompiler).compile assert [C04] the-body-is-compiled: arg1 == rvOf(boxed(as("*go/ast.ForStmt", rvIface(v).val).Body))
 
 // An identifier of the '-' pattern: a declared metavariable becomes a MetavarMatcher of its kind (C02),
@@ -849,8 +852,8 @@ package engine
 //@   ensures c.dots.arr == old(c.dots.arr) || fresh(c.dots.arr)
 //@   ensures [C07,C08] recorded-stray-elisions-are-never-dropped: (c.strayDots.arr == old(c.strayDots.arr) || fresh(c.strayDots.arr)) && len(c.strayDots) >= old(len(c.strayDots))
 //@   ensures [C04] for-elision-replacer-holds-the-compiled-body: as("*go/ast.ForStmt", rvIface(v).val).Cond.typ == dyn("*github.com/uber-go/gopatch/internal/pgo.Dots") && as("*go/ast.ForStmt", rvIface(v).val).Init == nil && as("*go/ast.ForStmt", rvIface(v).val).Post == nil ==> m == boxed(mk("github.com/uber-go/gopatch/internal/engine.ForDotsReplacer", nodePos(as("*go/ast.ForStmt", rvIface(v).val).Cond), cR(c.fset, c.meta, c.dotAssoc, rvOf(boxed(as("*go/ast.ForStmt", rvIface(v).val).Body)), c.patchStart, c.patchEnd), c.dotAssoc))
-//@   at call (*engine.replacerCompiler).compileGeneric assert [C02,C04] only-a-bare-elision-header-is-special: arg1 == v && (as("*go/ast.ForStmt", rvIface(v).val).Cond.typ != dyn("*github.com/uber-go/gopatch/internal/pgo.Dots") || as("*go/ast.ForStmt", rvIface(v).val).Init != nil || as("*go/ast.ForStmt", rvIface(v).val).Post != nil)
-//@   at call (*engine.replacerCompiler).compile assert [C02,C04] the-for-elision-needs-a-bare-elision-header: as("*go/ast.ForStmt", rvIface(v).val).Cond.typ == dyn("*github.com/uber-go/gopatch/internal/pgo.Dots") && as("*go/ast.ForStmt", rvIface(v).val).Init == nil && as("*go/ast.ForStmt", rvIface(v).val).Post == nil
+//@   at call (*engine.replacerCompiler).compileGeneric assert [C02,C03,C04] only-a-bare-elision-header-is-special: arg1 == v && (as("*go/ast.ForStmt", rvIface(v).val).Cond.typ != dyn("*github.com/uber-go/gopatch/internal/pgo.Dots") || as("*go/ast.ForStmt", rvIface(v).val).Init != nil || as("*go/ast.ForStmt", rvIface(v).val).Post != nil)
+//@   at call (*engine.replacerCompiler).compile assert [C02,C03,C04] the-for-elision-needs-a-bare-elision-header: as("*go/ast.ForStmt", rvIface(v).val).Cond.typ == dyn("*github.com/uber-go/gopatch/internal/pgo.Dots") && as("*go/ast.ForStmt", rvIface(v).val).Init == nil && as("*go/ast.ForStmt", rvIface(v).val).Post == nil
 //@   at call (*engine.replacerCompiler).compile assert [C04] the-body-is-compiled: arg1 == rvOf(boxed(as("*go/ast.ForStmt", rvIface(v).val).Body))
 
 // ---- replacers (C03, C05, C08) ------------------------------------------------------------------------
@@ -1137,6 +1140,7 @@ package engine
 //@   requires typing: forall i int {achange.Meta.Vars[i]} :: 0 <= i && i < len(achange.Meta.Vars) ==> achange.Meta.Vars[i] != nil && achange.Meta.Vars[i].Type != nil && forall j int {achange.Meta.Vars[i].Names[j]} :: 0 <= j && j < len(achange.Meta.Vars[i].Names) ==> achange.Meta.Vars[i].Names[j] != nil
 //@   ensures [C07,C08] an-elision-where-none-is-supported-rejects-the-change: len(ret("engine.newReplacerCompiler", 0).strayDots) > 0 ==> len(c.errors) > old(len(c.errors))
 //@   at call (*engine.compiler).errf where arg2 is "\"...\" is not supported here in the \"+\" section" assert [C19] the-stray-elision-is-reported-where-it-stands: arg1 == pos
+//@   at call (*engine.compiler).errf assert [C13] a-change-is-rejected-for-its-elisions-only-never-for-its-name-or-layout: arg2 == "%v" || arg2 == "\"...\" is not supported here in the \"+\" section"
 //@   loop 0
 //@     invariant c.errors.arr == old(c.errors.arr) || fresh(c.errors.arr)
 //@     invariant len(c.errors) >= old(len(c.errors)) + #k
@@ -1147,11 +1151,11 @@ package engine
 //@ func connectDots(fset, lhs, rhs, conns) (err)
 //@   requires conns != nil
 //@   assigns allof("E.main_sourcePath"), allof("E.token_Pos"), allof("MH.Int.S_token_Position"), allof("MV.Int.S_token_Position"), allof("MH.Int.Int"), allof("MV.Int.Int")
-//@   ensures [C04,C13] associated-with-an-elision-at-or-before-it: forall k int {has(conns, k)} :: has(conns, k) && !old(has(conns, k)) ==> posLE(posOfFn(getPosition, conns[k]), posOfFn(getPosition, k))
+//@   ensures [C04,C05,C13] associated-with-an-elision-at-or-before-it: forall k int {has(conns, k)} :: has(conns, k) && !old(has(conns, k)) ==> posLE(posOfFn(getPosition, conns[k]), posOfFn(getPosition, k))
 //@   ensures [C04,C13,C16,C19] success-means-every-plus-elision-is-associated: err == nil ==> forall j int {rhs[j]} :: 0 <= j && j < len(rhs) ==> has(conns, rhs[j])
 //@   loop 0
 //@     invariant [C04,C13,C16,C19] every-plus-elision-so-far-is-associated: forall j int {rhs[j]} :: 0 <= j && j < #k ==> has(conns, rhs[j])
-//@     invariant [C04,C13] associated-with-an-elision-at-or-before-it: forall k int {has(conns, k)} :: has(conns, k) && !old(has(conns, k)) ==> posLE(posOfFn(getPosition, conns[k]), posOfFn(getPosition, k))
+//@     invariant [C04,C05,C13] associated-with-an-elision-at-or-before-it: forall k int {has(conns, k)} :: has(conns, k) && !old(has(conns, k)) ==> posLE(posOfFn(getPosition, conns[k]), posOfFn(getPosition, k))
 //@     invariant len(lhs) == len(lhs0)
 
 // The memoising position lookup of connectDots: faithful to the FileSet.
